@@ -1,7 +1,189 @@
 package props
 
-import "github.com/scigolib/hdf5/internal/zzverif/ev"
+import (
+	"fmt"
+	"path/filepath"
+	"strings"
 
-// part A is added with the file-level helpers (see c19a implementation below).
-func c19ACases(tier string) int { return 0 }
-func c19aRun(c *ev.Ctx)         {}
+	"github.com/scigolib/hdf5/internal/zzverif/dump"
+	"github.com/scigolib/hdf5/internal/zzverif/ev"
+	"github.com/scigolib/hdf5/internal/zzverif/hx"
+)
+
+// C19 part A — twin runs: one attribute history (the C02 generator: upserts and deletes
+// across compact and dense storage, reopen sessions) under the default configuration and
+// under a drawn rebalancing configuration with toggles inserted at random points. The
+// reopened content and the outcome of every call must be the same.
+
+func c19ACases(tier string) int {
+	if tier == "thorough" {
+		return 6000
+	}
+	return 400
+}
+
+func c19GenRB(r *ev.Rand) (hx.RB, string) {
+	var rb hx.RB
+	tag := ""
+	switch r.Intn(6) {
+	case 0:
+		rb.NoRebalance = true
+		tag = "none"
+	case 1:
+		rb.Lazy = true
+		rb.LazyThr = []float64{0, 0.01, 0.05, 0.5, 0.99, 1}[r.Intn(6)]
+		rb.LazyDelayNS = []int64{0, 1, 1000, 5_000_000, 3_600_000_000_000}[r.Intn(5)]
+		rb.LazyBatch = []int{0, 1, 2, 100}[r.Intn(4)]
+		tag = "lazy"
+	case 2:
+		rb.Incr = true
+		rb.Lazy = true // incremental requires lazy (documented)
+		rb.IncrBudget = []int64{0, 1, 1000, 100_000_000}[r.Intn(4)]
+		rb.IncrEvery = []int64{0, 1000, 50_000, 5_000_000}[r.Intn(4)]
+		tag = "incremental"
+	case 3:
+		rb.Smart = true
+		rb.SmartDetect = r.Bool()
+		rb.SmartSwitch = r.Bool()
+		rb.SmartMin = []uint64{0, 1, 1 << 20}[r.Intn(3)]
+		all := []string{"none", "lazy", "incremental", "immediate"}
+		for _, m := range all {
+			if r.Bool() {
+				rb.SmartModes = append(rb.SmartModes, m)
+			}
+		}
+		tag = "smart"
+	case 4:
+		rb.Lazy, rb.Smart = true, true
+		rb.SmartDetect, rb.SmartSwitch = true, true
+		tag = "lazy+smart"
+	default:
+		tag = "default+toggles"
+	}
+	return rb, tag
+}
+
+func c19aRun(c *ev.Ctx) {
+	r := c.R
+	cs := c02Gen(r.Fork("history"), c.Thorough(), false)
+	base := cs.Script
+	rb, tag := c19GenRB(r)
+	twin := &hx.Script{SB: base.SB, RB: rb}
+	toggles := []string{"rb_disable", "rb_enable", "rb_all", "rb_force", "rb_lazy_on", "rb_lazy_off", "rb_incr_on", "rb_incr_stop", "rb_attr"}
+	ntog := 0
+	idx := make([]int, len(base.Ops)) // index in twin of every op of the base history
+	var dsTargets []string
+	for i, k := range cs.Kinds {
+		if k != "group" {
+			dsTargets = append(dsTargets, cs.Targets[i])
+		}
+	}
+	density := []int{0, 20, 8, 3}[r.Intn(4)] // a toggle about every `density` ops (0: none)
+	if tag == "default+toggles" && density == 0 {
+		density = 5
+	}
+	usedToggles := map[string]bool{}
+	for i, op := range base.Ops {
+		if density > 0 && r.Chance(1, density) {
+			t := toggles[r.Intn(len(toggles))]
+			o := hx.Op{K: t}
+			if t == "rb_attr" {
+				if len(dsTargets) == 0 {
+					t = "rb_all"
+					o = hx.Op{K: t}
+				} else {
+					o.Path = dsTargets[r.Intn(len(dsTargets))]
+				}
+			}
+			twin.Ops = append(twin.Ops, o)
+			usedToggles[t] = true
+			ntog++
+		}
+		idx[i] = len(twin.Ops)
+		twin.Ops = append(twin.Ops, op)
+	}
+	dumpScriptIfReplay(c, twin)
+	pa, pb := filepath.Join(c.Dir, "default.h5"), filepath.Join(c.Dir, "twin.h5")
+	ea := hx.Run(pa, base)
+	eb := hx.Run(pb, twin)
+	var tl []string
+	for t := range usedToggles {
+		tl = append(tl, t)
+	}
+	wit := func(detail any) map[string]any {
+		var ops []string
+		for i, op := range twin.Ops {
+			st := "ok"
+			if i < len(eb.Res) && !eb.Res[i].OK() {
+				st = "ERR"
+			}
+			ops = append(ops, trunc40(op.String())+"["+st+"]")
+		}
+		if len(ops) > 120 {
+			ops = append(ops[:60], append([]string{"…"}, ops[len(ops)-60:]...)...)
+		}
+		return map[string]any{"sb": base.SB, "rb": rb, "twin_ops": ops, "detail": detail}
+	}
+	for i, res := range eb.Res {
+		if res.Panic != "" {
+			k := "close"
+			if i < len(twin.Ops) {
+				k = twin.Ops[i].K
+			}
+			c.Violation("panic:"+tag+":"+k+"@"+res.Panic, wit(res))
+			return
+		}
+	}
+	if len(ea.Res) > 0 && len(eb.Res) > 0 && ea.Res[0].Err != "" && strings.HasPrefix(ea.Res[0].Err, "create:") != strings.HasPrefix(eb.Res[0].Err, "create:") {
+		c.Violation("create-refused:"+tag, wit(eb.Res[0]))
+		return
+	}
+	if len(eb.Res) > 0 && strings.HasPrefix(eb.Res[0].Err, "create:") {
+		// the configuration itself was refused (e.g. incompatible options): nothing to compare
+		c.Count("configuration_refused:"+tag, 1)
+		c.Case("refused|"+tag, false)
+		return
+	}
+	dense, deletes := false, 0
+	perTarget := map[string]int{}
+	for i, op := range base.Ops {
+		if op.K == "attr" && ea.Res[i].OK() {
+			perTarget[op.Path]++
+			if perTarget[op.Path] >= 8 {
+				dense = true
+			}
+		}
+		if op.K == "delattr" && ea.Res[i].OK() {
+			deletes++
+		}
+	}
+	c.Case(fmt.Sprintf("A|sb%d|%s|%+v|toggles%d|dense%v|del%d|ops%d", base.SB, tag, rb, ntog, dense, min(deletes, 5), len(base.Ops)/10), dense || deletes > 0)
+	c.Count("A:config:"+tag, 1)
+	c.Count("A:toggles", int64(ntog))
+	if dense {
+		c.Count("A:histories_with_dense_storage", 1)
+	}
+	if ea.CloseRes.OK() != eb.CloseRes.OK() {
+		c.Violation("close-differs:"+tag, wit(map[string]any{"default": ea.CloseRes, "twin": eb.CloseRes}))
+		return
+	}
+	for i := range base.Ops {
+		ra, rb2 := ea.Res[i], eb.Res[idx[i]]
+		if ra.OK() != rb2.OK() {
+			c.Violation("call-outcome-differs:"+tag+":"+base.Ops[i].K, wit(map[string]any{"op": trunc40(base.Ops[i].String()), "default": ra, "twin": rb2}))
+			return
+		}
+	}
+	da, db := dump.File(pa, dump.Options{}), dump.File(pb, dump.Options{})
+	if da.OpenRes.OK() != db.OpenRes.OK() {
+		c.Violation("content:open:"+tag, wit(map[string]any{"default": da.OpenRes, "twin": db.OpenRes}))
+		return
+	}
+	if diff := dump.Diff(da, db, nil); len(diff) > 0 {
+		storage := "compact"
+		if dense {
+			storage = "dense"
+		}
+		c.Violation("content-differs:"+tag+":"+storage, wit(map[string]any{"paths": diff, "default": trunc40(logicalOf(da, diff[0])), "twin": trunc40(logicalOf(db, diff[0])), "toggles": tl}))
+	}
+}
